@@ -87,10 +87,19 @@ def canon(ctx):
         roots = [r for r in root_descr(fp, s.args[0]) if r[0] == 'param']
         ctx.check(bool(roots), fp.key, 'sort(attribute_ids)',
                   'the sort is not applied to the identifier vector', 'sorts the parameter', s.where())
-        ws = fp.calls(r'Serializer::write_leb128_u64$', r'Serializer::write')
-        ctx.check(bool(ws) and all(fp.block_dominates(s.b, w.b) for w in ws), fp.key, 'sort dominates encoding',
+        # the writes, wherever they sit: in from_point itself or in a closure it hands to an iterator (then the call that runs
+        # the closure is what the sort must dominate)
+        wblocks = [w.b for w in fp.calls(r'Serializer::write_leb128_u64$', r'Serializer::write')]
+        for cb in lib.family_ext(F, fp.key):
+            if cb is fp or not cb.calls(r'Serializer::write_leb128_u64$', r'Serializer::write'):
+                continue
+            for (pb, cc, _i) in lib.closure_consumers(F, cb):
+                if pb is fp:
+                    wblocks.append(cc.b)
+        ws = wblocks
+        ctx.check(bool(ws) and all(fp.block_dominates(s.b, w) for w in ws), fp.key, 'sort dominates encoding',
                   'an identifier is encoded before the vector is sorted', 'sort dominates %d encoding call(s)' % len(ws), s.where())
-        for w in ws:
+        for w in fp.calls(r'Serializer::write_leb128_u64$', r'Serializer::write'):
             sl = backward_slice(fp, [w.args[1]], follow_mutarg=False)
             ctx.check(bool(sl.params), fp.key, 'encodes sorted ids',
                       'the encoded value does not come from the (sorted) identifier vector', 'value <- attribute_ids', w.where())
